@@ -123,6 +123,8 @@ class Sym:
         if o["k"] == "const":
             if "promoted" in o and getattr(self.f, "promoted", None) and o["promoted"] < len(self.f.promoted):
                 return ("constref", promoted_value(self.f, o["promoted"]))
+            if o.get("ty", "").startswith("std::option::Option<") and o.get("v", "").startswith("{transmute(0x0000000000000000)"):
+                return ("none",)      # the all-zero constant of an Option of a non-null pointer (niche encoding of None)
             return ("const", op_const(o), o["v"], o.get("fn"))
         p = op_place(o)
         if p is None:
